@@ -22,7 +22,7 @@ async fn open_epoch(s: &mut Sim, g: &mut G) -> u64 {
 }
 
 async fn run(mut s: Sim, mut rng: Rng, _len: usize) -> Sim {
-    let which = ((s.n >> 32) - 1) % 18;   // history id: consecutive histories run the scripts in turn
+    let which = ((s.n >> 32) - 1) % 19;   // history id: consecutive histories run the scripts in turn
     if (7..12).contains(&which) { return unconfigured(s, rng, which).await; }
     if which == 17 { return feature_unconfigured(s, rng).await; }
     let mut g = bootstrap_with(&mut s, &mut rng, None).await;
@@ -44,6 +44,10 @@ async fn run(mut s: Sim, mut rng: Rng, _len: usize) -> Sim {
             let ix = s.rd_finalize_debt(&g.debt_acc, e, &g.payer); s.op(tx(vec![ix])).await;
             let ix = s.rd_enable_write_off(e, &g.payer); s.op(tx(vec![ix])).await;
             let p0 = s.proof(&t, 0).unwrap(); let p1 = s.proof(&t, 1).unwrap();
+            // C10 / C07: a config look-alike under another owner naming an outsider as debt accountant; the outsider signs the write-off
+            { let (outsider, fake) = (g.users[11].clone(), K::User(705));
+              s.forge_rd_config_ex(&outsider, &fake, &K::Rogue(2), true).await;
+              let ix = s.rd_write_off(&outsider, e, &g.nodes[6].clone(), e, 5, &p0).with_key(0, &fake); s.op(tx(vec![ix])).await; }
             let ix = s.rd_write_off(&g.debt_acc, e, &g.nodes[6].clone(), e, 5, &p0); s.op(tx(vec![ix])).await;
             let ix = s.rd_write_off(&g.debt_acc, e, &g.nodes[7].clone(), e, u64::MAX - 2, &p1); s.op(tx(vec![ix])).await;
         }
@@ -87,6 +91,15 @@ async fn run(mut s: Sim, mut rng: Rng, _len: usize) -> Sim {
             let w = s.rd_withdraw_sol(&rogue, &g.users[8], debt).with_signer(1, false); s.op(tx(vec![w])).await;
             let t = s.tok_transfer_checked(&src, &K::Mint, &swap_dest, &g.buyer, 1, doublezero_revenue_distribution::DOUBLEZERO_MINT_DECIMALS);
             let w = s.rd_withdraw_sol(&rogue, &g.users[8], debt).with_signer(1, false); s.op(tx(vec![t, w])).await;
+            // C06 / C08: while the program is paused, the purchase offered with an un-paused config look-alike under another owner: refused
+            { let fake = K::User(706);
+              let pz = s.rd_configure(&g.admin, RdSetting::Paused(true)); s.op(tx(vec![pz])).await;
+              s.forge_rd_config_ex(&g.users[11].clone(), &fake, &K::Passport, true).await;
+              let ix = s.rogue_buy(1, &src, &g.buyer, &g.users[8], 500, debt).with_key(4, &fake); s.op(tx(vec![ix])).await;
+              let up = s.rd_configure(&g.admin, RdSetting::Paused(false)); s.op(tx(vec![up])).await; }
+            // C06: plain lamports donated to the journal are not tracked SOL: a purchase for more than the tracked balance is refused
+            s.op(Op::Airdrop(K::RdJournal, 700_000)).await;
+            let ix = s.rogue_buy(1, &src, &g.buyer, &g.users[8], 500, debt + 500_000); s.op(tx(vec![ix])).await;
             let ix = s.rogue_buy(1, &src, &g.buyer, &g.users[8], 500, debt); s.op(tx(vec![ix])).await;
             // a third party donates 300 2Z straight into the swap destination
             let ix = s.tok_transfer(&src, &K::Tok2z(b(&K::RdSwapAuth)), &g.buyer, 300); s.op(tx(vec![ix])).await;
@@ -132,18 +145,26 @@ async fn run(mut s: Sim, mut rng: Rng, _len: usize) -> Sim {
         }
         5 => { // C01 / C02: leaves at the byte boundaries of the bitmaps (7, 8, 15, 16): settle, then the same leaf again
             let e = open_epoch(&mut s, &mut g).await;
-            let leaves: Vec<Leaf> = (0..17).map(|i| Leaf::Debt { node: g.nodes[i % 6].clone(), amount: 1_000 + i as u64 }).collect();
+            // leaf 15 (bit 7 of the second bitmap byte) belongs to a validator that never funds its deposit: it is written off, twice
+            let leaves: Vec<Leaf> = (0..17).map(|i| Leaf::Debt { node: if i == 15 { g.nodes[6].clone() } else { g.nodes[i % 6].clone() }, amount: 1_000 + i as u64 }).collect();
             let total: u64 = (0..17).map(|i| 1_000 + i as u64).sum();
             let t = s.def_tree(0, leaves.clone());
             let ix = s.rd_configure_debt(&g.debt_acc, e, 17, total, t.root); s.op(tx(vec![ix])).await;
             let ix = s.rd_finalize_debt(&g.debt_acc, e, &g.payer); s.op(tx(vec![ix])).await;
-            for idx in [7u32, 8, 15, 16, 0, 6, 9] {
+            let ix = s.rd_enable_write_off(e, &g.payer); s.op(tx(vec![ix])).await;
+            { let p = s.proof(&t, 15).unwrap(); let poor = g.nodes[6].clone();
+              for _ in 0..2 { let ix = s.rd_write_off(&g.debt_acc, e, &poor, e, 1_015, &p); s.op(tx(vec![ix])).await; } }
+            // C01: a payment of amount 0 carrying the genuine proof of a non-zero leaf (leaf 9): the leaf hash does not match, refused,
+            // and the leaf stays payable
+            { let Leaf::Debt { node, .. } = leaves[9].clone() else { unreachable!() };
+              let p = s.proof(&t, 9).unwrap(); let ix = s.rd_pay(e, &node, 0, &p); s.op(tx(vec![ix])).await; }
+            for idx in [7u32, 8, 16, 0, 6, 9] {
                 let Leaf::Debt { node, amount } = leaves[idx as usize].clone() else { unreachable!() };
                 s.op(Op::Airdrop(K::RdDeposit(b(&node)), 2 * amount)).await;
                 let p = s.proof(&t, idx).unwrap();
                 let ix = s.rd_pay(e, &node, amount, &p); s.op(tx(vec![ix.clone()])).await; s.op(tx(vec![ix])).await;
             }
-            for idx in (0..17u32).filter(|i| ![7u32, 8, 15, 16, 0, 6, 9].contains(i)) {
+            for idx in (0..17u32).filter(|i| ![7u32, 8, 15, 16, 0, 6, 9].contains(i)) {   // (15 was written off)
                 let Leaf::Debt { node, amount } = leaves[idx as usize].clone() else { unreachable!() };
                 s.op(Op::Airdrop(K::RdDeposit(b(&node)), amount)).await;
                 let p = s.proof(&t, idx).unwrap(); let ix = s.rd_pay(e, &node, amount, &p); s.op(tx(vec![ix])).await;
@@ -224,6 +245,30 @@ async fn run(mut s: Sim, mut rng: Rng, _len: usize) -> Sim {
             for rec in [vec![10_000u16, 10_000, 10_000, 10_000, 10_000, 10_000, 10_000, 5_536], vec![9_442u16; 8], vec![10_000u16, 10_000, 10_000, 10_000, 10_000, 10_000, 5_536]] {
                 let l: Vec<(K, u16)> = rec.iter().enumerate().map(|(j, x)| (K::User(320 + j as u64), *x)).collect();
                 let ix = s.rd_configure_contributor_recipients(&mgr, &svc, &l); s.op(tx(vec![ix])).await;
+            }
+        }
+        18 => { // C08 / C07: one operations wallet holds the admin role AND the debt-accountant, rewards-accountant and contributor-manager
+                // roles: while paused the admin may administer, but the role-gated instructions it signs are still refused
+            let admin = g.admin.clone();
+            for st in [RdSetting::DebtAccountant(admin.clone()), RdSetting::RewardsAccountant(admin.clone()), RdSetting::ContributorManager(admin.clone())] {
+                let ix = s.rd_configure(&admin, st); s.op(tx(vec![ix])).await; }
+            g.debt_acc = admin.clone(); g.rew_acc = admin.clone(); g.cmgr = admin.clone();
+            let e = open_epoch(&mut s, &mut g).await;
+            let t = s.def_tree(0, vec![Leaf::Debt { node: g.nodes[6].clone(), amount: 4_000 }]);
+            let rt = s.def_tree(1, vec![Leaf::Reward { contributor: g.svcs[0].clone(), unit_share: 1_000_000_000, packed: 0 }]);
+            let p = s.proof(&t, 0).unwrap();
+            let steps = vec![
+                s.rd_set_rewards_manager(&admin, &g.svcs[3].clone(), &g.users[9].clone()),
+                s.rd_configure_debt(&admin, e, 1, 4_000, t.root),
+                s.rd_finalize_debt(&admin, e, &g.payer),
+                s.rd_enable_write_off(e, &g.payer),
+                s.rd_write_off(&admin, e, &g.nodes[6].clone(), e, 4_000, &p),
+                s.rd_configure_rewards(&admin, e, 1, rt.root) ];
+            for ix in steps {
+                let pz = s.rd_configure(&admin, RdSetting::Paused(true)); s.op(tx(vec![pz])).await;
+                s.op(tx(vec![ix.clone()])).await;                                           // paused: refused although the admin signs
+                let up = s.rd_configure(&admin, RdSetting::Paused(false)); s.op(tx(vec![up])).await;
+                s.op(tx(vec![ix])).await;
             }
         }
         16 => { // C04: rewards of the genesis epoch cannot be finalized before the configured minimum number of epochs (2, then 3) has
@@ -324,6 +369,12 @@ async fn run(mut s: Sim, mut rng: Rng, _len: usize) -> Sim {
             both!(s.rd_sweep(e, &K::SwapMock, &g.fills));
             let pr = s.proof(&rt, 0).unwrap();
             let recs: Vec<K> = rec.iter().map(|x| x.0.clone()).collect();
+            // C03: the relayer passes one recipient's token account in both recipient positions / the two in the wrong order: refused
+            { let d = s.rd_distribute(e, &v, &g.relayer, &recs, 1_000_000_000, 0, &pr); let n = d.metas.len();
+              let (a0, a1) = (d.metas[n - 2].0.clone(), d.metas[n - 1].0.clone());
+              let ix = d.clone().with_key(n - 1, &a0); s.op(tx(vec![ix])).await;
+              let ix = d.clone().with_key(n - 2, &a1); s.op(tx(vec![ix])).await;
+              let ix = d.clone().with_key(n - 2, &a1).with_key(n - 1, &a0); s.op(tx(vec![ix])).await; }
             both!(s.rd_distribute(e, &v, &g.relayer, &recs, 1_000_000_000, 0, &pr));
         }
         13 => { // C03 / C02: amounts where floor(share x remainder / 10 000) no longer fits a u64 product
